@@ -298,6 +298,203 @@ theorem find_ok {s : Srv} {db : DB} {rq : Req} {p : Profile} {d : Device} (h : f
           exact ⟨by simpa using hs, dd, hdd, hfd, hau⟩
       · rename_i hne; exact absurd h (hne p d)
 
+
+/-! ## Literal (parser-free) reading of "the request carries the device's identifier" -/
+
+/-- Label `e` names device `d` of profile `p`: it is the device ID up to letter case (fewer than two
+hyphens), or `<type>-<profile id>-<human id>` with the profile ID up to letter case and a human ID
+that normalises to the device's. -/
+def Names (e : Str) (p : Profile) (d : Device) : Prop :=
+  (e.count '-' < 2 ∧ lower e = d.id) ∨
+  (∃ a b c, e = a ++ '-' :: (b ++ '-' :: c) ∧ '-' ∉ a ∧ '-' ∉ b ∧ lower b = p.id ∧
+    ∃ h, parseNormalized c = some h ∧ d.humanLower = lower h)
+
+theorem cutHyphen_some {s a r : Str} (h : cutHyphen s = some (a, r)) : s = a ++ '-' :: r ∧ '-' ∉ a := by
+  induction s generalizing a r with
+  | nil => simp [cutHyphen] at h
+  | cons c cs ih =>
+    unfold cutHyphen at h
+    split at h
+    · rename_i hc
+      injection h with h; injection h with h1 h2
+      subst h1; subst h2; subst hc; simp
+    · rename_i hc
+      split at h
+      · cases h
+      · rename_i a' b' hcut
+        injection h with h; injection h with h1 h2
+        subst h1; subst h2
+        obtain ⟨e1, e2⟩ := ih hcut
+        refine ⟨by simp [e1], ?_⟩
+        intro hm
+        rcases List.mem_cons.mp hm with hh | hh
+        · exact hc hh.symm
+        · exact e2 hh
+
+theorem parseDeviceData_names {e : Str} {dd : DevData} {p : Profile} {d : Device}
+    (h : parseDeviceData e = some dd) (ho : Owns p d dd) : Names e p d := by
+  unfold parseDeviceData at h
+  split at h
+  · split at h
+    · cases h
+    · rename_i dt pid hid hext
+      injection h with h; subst h
+      unfold parseExtHumanID at hext
+      split at hext
+      · cases hext
+      · rename_i a r hc1
+        split at hext
+        · cases hext
+        · rename_i b c hc2
+          split at hext
+          · cases hext
+          · split at hext
+            · cases hext
+            · split at hext
+              · cases hext
+              · rename_i hh hn
+                injection hext with hext
+                injection hext with e1 e2
+                injection e2 with e2 e3
+                subst e1; subst e2; subst e3
+                obtain ⟨s1, n1⟩ := cutHyphen_some hc1
+                obtain ⟨s2, n2⟩ := cutHyphen_some hc2
+                obtain ⟨o1, o2⟩ := ho
+                exact Or.inr ⟨a, b, c, by rw [s1, s2], n1, n2, o1.symm, hh, hn, o2⟩
+  · rename_i hl
+    split at h
+    · injection h with h; subst h
+      have : e.count '-' < 2 := by
+        simp only [isLikelyExtHumanID, decide_eq_true_eq] at hl; omega
+      exact Or.inl ⟨this, ho.symm⟩
+    · cases h
+
+/-- What `isImmediateSubdomain` + the slice in `deviceDataFromCliSrvName` mean literally. -/
+theorem immediate_label {sni dom : Str} (h : isImmediateSubdomain (lower sni) dom = true) :
+    lower sni = lower (sni.take (sni.length - dom.length - 1)) ++ '.' :: dom ∧
+      '.' ∉ lower (sni.take (sni.length - dom.length - 1)) := by
+  simp only [isImmediateSubdomain, Bool.and_eq_true, decide_eq_true_eq] at h
+  obtain ⟨⟨⟨hlen, hsuf⟩, hhead⟩, hcount⟩ := h
+  have hl : (lower sni).length = sni.length := by simp [lower]
+  rw [hl] at hlen hhead
+  obtain ⟨t, ht⟩ := List.head?_eq_some_iff.mp hhead
+  obtain ⟨pre, hpre⟩ := List.isSuffixOf_iff_suffix.mp hsuf
+  have hsplit := List.take_append_drop (sni.length - dom.length - 1) (lower sni)
+  rw [ht] at hsplit
+  have htl : t.length = dom.length := by
+    have := congrArg List.length ht
+    simp [List.length_drop, hl] at this; omega
+  have e1 : (List.take (sni.length - dom.length - 1) (lower sni) ++ ['.']) ++ t = pre ++ dom := by
+    rw [hpre]; simpa using hsplit
+  have htd : t = dom := List.append_inj_right' e1 htl
+  subst htd
+  have hmap : lower (sni.take (sni.length - t.length - 1)) = List.take (sni.length - t.length - 1) (lower sni) := by
+    simp [lower, List.map_take]
+  rw [hmap]
+  refine ⟨hsplit.symm, ?_⟩
+  rw [← hsplit, List.count_append, List.count_cons] at hcount
+  simp at hcount
+  exact List.count_eq_zero.mp (by omega)
+
+theorem cleanGo_mem (rooted : Bool) (l st : List Str) (x : Str) (h : x ∈ cleanGo rooted l st) :
+    x ∈ l ∨ x ∈ st := by
+  induction l generalizing st with
+  | nil => simp [cleanGo] at h; exact Or.inr h
+  | cons s r ih =>
+    unfold cleanGo at h
+    split at h
+    · rcases ih _ h with h | h
+      · exact Or.inl (List.mem_cons_of_mem _ h)
+      · exact Or.inr h
+    · split at h
+      · split at h
+        · rename_i t st'
+          split at h
+          · split at h
+            · rcases ih _ h with h | h
+              · exact Or.inl (List.mem_cons_of_mem _ h)
+              · exact Or.inr h
+            · rcases ih _ h with h | h
+              · exact Or.inl (List.mem_cons_of_mem _ h)
+              · rcases List.mem_cons.mp h with h | h
+                · exact Or.inl (by simp [h])
+                · exact Or.inr h
+          · rcases ih _ h with h | h
+            · exact Or.inl (List.mem_cons_of_mem _ h)
+            · exact Or.inr (List.mem_cons_of_mem _ h)
+        · split at h
+          · rcases ih _ h with h | h
+            · exact Or.inl (List.mem_cons_of_mem _ h)
+            · exact Or.inr h
+          · rcases ih _ h with h | h
+            · exact Or.inl (List.mem_cons_of_mem _ h)
+            · rcases List.mem_cons.mp h with h | h
+              · exact Or.inl (by simp [h])
+              · simp at h
+      · rcases ih _ h with h | h
+        · exact Or.inl (List.mem_cons_of_mem _ h)
+        · rcases List.mem_cons.mp h with h | h
+          · exact Or.inl (by simp [h])
+          · exact Or.inr h
+
+/-- The identifier element of a DoH path is literally one of its `/`-separated segments. -/
+theorem pathElements_segment {p e0 e1 : Str} (h : pathElements p = some [e0, e1]) :
+    e1 ∈ splitOn '/' p := by
+  unfold pathElements at h
+  split at h
+  · cases h
+  · rename_i f0 rest hce
+    split at h
+    · cases h
+    · split at h
+      · cases h
+      · split at h
+        · cases h
+        · injection h with h
+          injection h with h1 h2
+          subst h1; subst h2
+          simp only [cleanElems] at hce
+          split at hce
+          · split at hce <;> simp at hce
+          · have : e1 ∈ cleanGo (p.head? = some '/') (splitOn '/' p) [] := by rw [hce]; simp
+            rcases cleanGo_mem _ _ _ _ this with h | h
+            · exact h
+            · simp at h
+
+
+/-- **Literal specification of the property's first clause.**  The request presents device `d` of
+profile `p` through a channel that is valid for the server's transport.  Nothing here refers to the
+model's parsers (`pathElements`, `isImmediateSubdomain`, `parseDeviceData`): the basic-auth user *is*
+the device ID; a `/`-separated segment of the URL path, or the text in front of `.<device domain>`
+in the TLS server name — one label, no dots, the domain compared without letter case — names the
+device (`Names`); the CPE-ID option's payload *is* the device ID; or the request's address is the
+device's own dedicated / linked address (`OwnAddress`). -/
+inductive Presents (s : Srv) (rq : Req) (p : Profile) (d : Device) : Prop
+  | dohUser (pw : Option Str) : s.proto = .doh → rq.userinfo = some (d.id, pw) → Presents s rq p d
+  | dohPath (e : Str) : s.proto = .doh → rq.userinfo = none → e ∈ splitOn '/' rq.path → Names e p d →
+      Presents s rq p d
+  | sni (e dom : Str) : s.proto.isStdEncrypted = true → (s.proto = .doh → rq.userinfo = none) →
+      dom ∈ s.domains → e <+: rq.sni → lower rq.sni = lower e ++ '.' :: dom → '.' ∉ lower e →
+      Names e p d → Presents s rq p d
+  | edns (opts : List EOpt) (o : EOpt) : s.proto = .dns → rq.edns = some opts → o ∈ opts →
+      o.code = 65074 → o.data = d.id → Presents s rq p d
+  | address : OwnAddress s rq d → Presents s rq p d
+
+theorem carried_presents {s : Srv} {rq : Req} {dd : DevData} {p : Profile} {d : Device}
+    (hc : Carried s rq dd) (ho : Owns p d dd) : Presents s rq p d := by
+  cases hc with
+  | dohUser u pw hdoh hui =>
+    have : d.id = u := ho
+    subst this; exact .dohUser pw hdoh hui
+  | dohPath e0 e1 dd hdoh hui hpe hpd =>
+    exact .dohPath e1 hdoh hui (pathElements_segment hpe) (parseDeviceData_names hpd ho)
+  | sni dom dd henc hu hdom himm hpd =>
+    obtain ⟨h1, h2⟩ := immediate_label himm
+    exact .sni _ dom henc hu hdom (List.take_prefix _ _) h1 h2 (parseDeviceData_names hpd ho)
+  | edns opts o hdns hopts ho' hcode =>
+    have : d.id = o.data := ho
+    exact .edns opts o hdns hopts ho' hcode this.symm
+
 /-! ## Congruence lemmas (which fields of the request each stage reads) -/
 
 theorem deviceFromDB_indep {s : Srv} {db : DB} {a b : Req} {dd : DevData} (h : s.proto ≠ .dns) :
